@@ -165,12 +165,21 @@ def run_for(prop: str, ctx) -> dict:
     for q, n, o, d in rn:
         results.append((f'rename-locals:{q.split(".", 1)[-1]}', 'SILENT' if o in ('ok', 'skip') else 'FAIL',
                         '' if o in ('ok', 'skip') else f'{o}: {d}'))
+    # behaviour-preserving statement rewrites (operand swap, if/else inversion, split conjunctions, guard clauses, annotations,
+    # casts, inserted logging/asserts), every applicable site of one analysed function at once: must stay silent
+    from .robust import sweep_rewrites
+    rw = sweep_rewrites(prop, cap=8 if prop in TYPED else 64, workers=16, repo=repo)
+    for q, k, o, d in rw:
+        if o == 'skip':
+            continue
+        results.append((f'rewrite-{k}:{q.split(".", 1)[-1]}', 'SILENT' if o == 'ok' else 'FAIL', '' if o == 'ok' else f'{o}: {d}'))
     fails = [r for r in results if r[1] == 'FAIL']
     summary = {
         'variants': len(results),
         'mutants_caught': sum(1 for r in results if r[1] == 'CAUGHT'),
-        'twins_silent': sum(1 for r in results if r[1] == 'SILENT' and not r[0].startswith('rename-locals:')),
+        'twins_silent': sum(1 for r in results if r[1] == 'SILENT' and not r[0].startswith(('rename-locals:', 'rewrite-'))),
         'rename_variants_silent': sum(1 for r in results if r[1] == 'SILENT' and r[0].startswith('rename-locals:')),
+        'rewrite_variants_silent': sum(1 for r in results if r[1] == 'SILENT' and r[0].startswith('rewrite-')),
         'skipped': sum(1 for r in results if r[1] == 'SKIP'),
         'failed': len(fails),
         'results': [{'variant': n, 'outcome': o, 'detail': d} for n, o, d in results],
